@@ -1,6 +1,7 @@
 package main
 
 import (
+	"github.com/tidwall/geojson"
 	"fmt"
 	"sync"
 
@@ -528,7 +529,7 @@ type pools struct {
 	// triangles with long slanted edges x shapes touching the hypotenuse at lattice points
 	slantTri  []*shp
 	slantPair [][2]*shp
-	desc             map[string]any
+	desc      map[string]any
 }
 
 func altCfg(i int) *geometry.IndexOptions {
@@ -757,4 +758,75 @@ func evalRetraced(c *rt.Case) (bool, string, string, error) {
 	}
 	got := geometry.NewLine(pts, cfgByName(c.Cfg)).ContainsLine(geometry.NewLine(sub, idxNone))
 	return !got, "true", fmt.Sprint(got), nil
+}
+
+// bboxObjects: shapes read from documents that carry third ordinates and a
+// "bbox" member (six-number 3D form / too small / elsewhere), asked at object
+// level: Contains, Within and Intersects must be what the geometry level
+// answers for the same coordinates (the bbox is a foreign member).
+func bboxObjects(r *rt.Run, p *pools, class string) {
+	var as []*shp
+	for i := 0; i < len(p.polys); i += 5 {
+		as = append(as, p.polys[i])
+	}
+	for i := 0; i < len(p.lines); i += 17 {
+		as = append(as, p.lines[i])
+	}
+	var bs []*shp
+	bs = append(bs, p.points...)
+	for i := 0; i < len(p.rects); i += 3 {
+		bs = append(bs, p.rects[i])
+	}
+	for i := 0; i < len(p.lines); i += 13 {
+		bs = append(bs, p.lines[i])
+	}
+	for i := 0; i < len(p.polys); i += 11 {
+		bs = append(bs, p.polys[i])
+	}
+	obs := make([]geojson.Object, len(bs))
+	for i, b := range bs {
+		obs[i] = objectsOf(b.E, ident, idxNone)[0]
+	}
+	r.ParFor(len(as), func(i int, w *rt.Worker) {
+		a := as[i]
+		objs := objectsOf(a.E, ident, idxNone)
+		if len(objs) <= 3 {
+			return // not expressible as a document (open ring)
+		}
+		for oi, oa := range objs[3:] {
+			w.States++
+			for bi, b := range bs {
+				ob := obs[bi]
+				wantC, wantI := libContains(a.G, b.G), libIntersects(a.G, b.G)
+				gotC, gotW, gotI, gotI2 := oa.Contains(ob), ob.Within(oa), oa.Intersects(ob), ob.Intersects(oa)
+				w.Evals += 4
+				w.Nontriv++
+				if gotC != wantC || gotW != wantC || gotI != wantI || gotI2 != wantI {
+					oi, b := oi, b
+					w.Fail(class, func() (rt.Case, string, string) {
+						return rt.Case{Kind: "bbox-object", Op: fmt.Sprint(oi + 3), A: descShape(a.E, ident), B: descShape(b.E, ident)}, fmt.Sprintf("contains=%v intersects=%v (geometry level)", wantC, wantI), fmt.Sprintf("contains=%v within=%v intersects=%v/%v", gotC, gotW, gotI, gotI2)
+					})
+				}
+			}
+		}
+	})
+}
+
+func evalBBoxObject(c *rt.Case) (bool, string, string, error) {
+	ea, ok1 := exactOf(c.A, ident)
+	eb, ok2 := exactOf(c.B, ident)
+	if !ok1 || !ok2 {
+		return false, "", "", fmt.Errorf("coordinates outside the exact domain")
+	}
+	var oi int
+	fmt.Sscan(c.Op, &oi)
+	objs := objectsOf(ea, ident, idxNone)
+	if oi < 3 || oi >= len(objs) {
+		return false, "", "", fmt.Errorf("malformed case")
+	}
+	oa, ob := objs[oi], objectsOf(eb, ident, idxNone)[0]
+	ga, gb := geomOf(ea, ident, idxNone), geomOf(eb, ident, idxNone)
+	wantC, wantI := libContains(ga, gb), libIntersects(ga, gb)
+	gotC, gotW, gotI, gotI2 := oa.Contains(ob), ob.Within(oa), oa.Intersects(ob), ob.Intersects(oa)
+	return gotC != wantC || gotW != wantC || gotI != wantI || gotI2 != wantI, fmt.Sprintf("contains=%v intersects=%v", wantC, wantI), fmt.Sprintf("contains=%v within=%v intersects=%v/%v", gotC, gotW, gotI, gotI2), nil
 }
